@@ -1112,6 +1112,8 @@ package leader
 //@   on spawn Updates$1$1 assert C14.updates_stable: inonce()
 //@ func (a *natsWatcherAdapter) Stop()
 //@   tags C14
+//@   on call nats.KeyWatcher.Stop as c assert C14.stop_passthrough: c.recv == a.watcher
+//@   ensures C14.stop_always_releases_the_watch: calls(nats.KeyWatcher.Stop) == 1
 
 //@ func (a *MockWatcherAdapter) Updates()
 //@   tags C14 C20
